@@ -160,3 +160,37 @@ package phase2
 //@   loop range(g.Nodes)#2 index b
 //@     invariant forall k int :: 0 <= k && k < b ==> g.Nodes[k].Layer == old(g.Nodes[k].Layer) - lowest
 //@     invariant forall k int :: b <= k && k < len(g.Nodes) ==> g.Nodes[k].Layer == old(g.Nodes[k].Layer)
+
+// ---------------------------------------------------------------------------
+// vertical balancing (C03): moving a node to a less crowded layer keeps every edge pointing at least Delta layers
+// down. Stated over the adjacency lists: feasibleOut is the property; inWF/adjSym say that the In and Out lists
+// describe the same edges (established by Populate/Reverse, assumed here).
+//@ spec inWF() bool =
+//@   forall m *Node, k int :: m != nil && 0 <= k && k < len(m.In) ==> m.In[k] != nil && m.In[k].To == m && m.In[k].From != nil && m.In[k].From != m
+//@ spec adjSym() bool =
+//@   (forall m *Node, k int :: m != nil && 0 <= k && k < len(m.Out) ==> m.Out[k].To != m
+//@       && (exists j int :: 0 <= j && j < len(m.Out[k].To.In) && m.Out[k].To.In[j] == m.Out[k]))
+//@   && (forall m *Node, k int :: m != nil && 0 <= k && k < len(m.In) ==>
+//@       (exists j int :: 0 <= j && j < len(m.In[k].From.Out) && m.In[k].From.Out[j] == m.In[k]))
+//@ spec feasibleOut() bool =
+//@   forall m *Node, k int :: m != nil && 0 <= k && k < len(m.Out) ==> m.Out[k].To.Layer - m.Layer >= m.Out[k].Delta
+
+//@ func vbalance
+//@   requires g != nil && outWF() && inWF() && adjSym() && feasibleOut()
+//@   requires forall j int :: 0 <= j && j < len(g.Nodes) ==> g.Nodes[j] != nil && g.Nodes[j].Layer >= 0
+//@   modifies Node.Layer, map[int]int, alloc
+//@   ensures[feasible|C03,C10] feasibleOut()
+//@   ensures[nonneg|C03,C10] forall j int :: 0 <= j && j < len(g.Nodes) ==> g.Nodes[j].Layer >= 0
+//@   loop range(g.Nodes)#1 index a
+//@     invariant lmax >= 0 && (forall j int :: 0 <= j && j < a ==> g.Nodes[j].Layer <= lmax)
+//@   loop range(g.Nodes)#2 index b
+//@     invariant feasibleOut()
+//@     invariant forall j int :: 0 <= j && j < len(g.Nodes) ==> g.Nodes[j].Layer >= 0 && g.Nodes[j].Layer <= lmax
+//@   loop range(n.In)#1 index c
+//@     invariant 0 <= low && low <= n.Layer
+//@     invariant forall k int :: 0 <= k && k < c ==> low >= n.In[k].From.Layer + n.In[k].Delta
+//@   loop range(n.Out)#1 index d
+//@     invariant n.Layer <= high && high <= lmax
+//@     invariant forall k int :: 0 <= k && k < d ==> high <= n.Out[k].To.Layer - n.Out[k].Delta
+//@   loop for(i<=high)#1
+//@     invariant low <= newl && (newl <= high || newl == low)
